@@ -287,9 +287,11 @@ func genTxbUnit(g *Gen) {
 
 type txbGen struct {
 	*ledGen
-	nReq   int
-	drafts int
-	scale  int64
+	nReq    int
+	drafts  int
+	scale   int64
+	reorged bool // the node reorganised and the wallet has not been told everything yet
+	remined bool // … and a transaction of a replaced block was mined again on the new branch
 }
 
 // block builds a valid block on `parent` like ledGen.buildBlock, with realistic coinbase amounts.
@@ -334,6 +336,7 @@ func (t *txbGen) block(parent string) *gBlock {
 			}
 			if ok && applyTx(b.utxo, o, b.height) {
 				b.txs = append(b.txs, o)
+				t.remined = true
 			}
 		default:
 			kind, want := "", ""
@@ -494,6 +497,7 @@ func (t *txbGen) reorgTo(depth, extra int) {
 	for i := 0; i < depth+extra; i++ {
 		t.extend()
 	}
+	t.reorged = true
 	l.g.Stats["reorg"]++
 }
 
@@ -982,16 +986,25 @@ func genTxbHistory(g *Gen, kind string) {
 		case k == 12 && g.Rng.Intn(3) == 0:
 			// process restart: the reservation cache is volatile
 			l.drain()
+			t.reorged, t.remined = false, false
 			l.op("restart", "restart")
 			t.nReq = 0
 		default:
-			if !lazy || g.Rng.Intn(3) > 0 {
+			// no requests while the wallet has not been told about a reorganisation that mined one of its
+			// transactions AGAIN: the wallet re-reads a coin's transaction by (height, byte offset) from
+			// whatever block is at that height now and may find it there by coincidence of sizes, which
+			// symbolic names cannot predict (otherwise such a stale coin is simply unresolvable: err:param)
+			if !lazy || g.Rng.Intn(3) > 0 || (t.reorged && t.remined) {
 				l.drain()
+				t.reorged, t.remined = false, false
+			} else {
+				g.Stats["burst-while-lagging"]++
 			}
 			t.burst()
 		}
 	}
 	l.drain()
+	t.reorged, t.remined = false, false
 	t.burst()
 }
 
